@@ -5,6 +5,18 @@ COMMON_NOTE = ("Trusted base: Lean 4.33 kernel; axioms ⊆ {propext, Classical.c
                "generated tables (harness/gen_tables.py). ")
 
 CLAIMED = {
+    "C12": {
+        "text": "Theorems (Lean, unbounded): build_is_sql — the compute expression built per condition keeps a row iff the SQL 3VL reference is "
+                "TRUE, for every operator, literal, value set (NULLs included) and row value (NULL/NaN/value); conj_is_sql for any number of "
+                "conditions; apis_agree_batches/_records/_nochecksum — any batch size, record iteration and the unverified path return what scan "
+                "returns; parse_table_correct on the operator tables regenerated from the source each run; compile_* — malformed shapes raise. "
+                "The models are compared with the real _build_condition/parse_filter_dict on exhaustive small domains every run, and every "
+                "scan API × option × projection is compared with an independent SQL evaluator on real tables.",
+        "design_ref": "§6 C12",
+        "note": "Values abstracted to NULL/NaN/Int; pyarrow compute kernels observed each run, not proved; NaN inside value sets unspecified; "
+                "NULLs in value sets dropped (library contract). Cross-type literals that every API rejects are treated as malformed.",
+        "technique": "Lean 4 theorems (build_is_sql, apis_agree) + model/implementation correspondence + generated-table theorem",
+    },
     "C13": {
         "text": "Theorem prune_sound (Lean, unbounded: every column content incl. NULL/NaN, operator, literal, value set): a file skipped "
                 "by its computed bounds holds no SQL-TRUE row; codec_roundtrip for the typed bound encoding; inWalk_eq for the lazy any(). "
